@@ -1279,3 +1279,56 @@ func ruleDirectiveFlush(c *Ctx, r *Report) {
 	}
 	r.analysed(rule, fname(dir))
 }
+
+// ---------------------------------------------------------------------------
+// C09: R-ABOLISH-CLEARS — added with fix F51.  "Every clause is removed at most once."  An open retract/1 holds
+// the procedure record it found at call time and looks its snapshot clauses up in that record's live clause
+// list; a clause that is no longer there fails (R-RETRACT-REMOVES).  Removing a procedure from the table without
+// emptying the record leaves the list intact for whoever still holds the record: the remaining alternatives of
+// the open retract/1 "remove" clauses that abolish/1 has already removed.  Checked: every delete from
+// VM.procedures is preceded, in the same function, by a store of nil into the clauses of a userDefined.
+func ruleAbolishClears(c *Ctx, r *Report) {
+	const rule = "R-ABOLISH-CLEARS"
+	desc := "a procedure removed from the table is emptied first"
+	n := 0
+	for _, w := range c.stateWrites("VM", "procedures") {
+		if !strings.HasSuffix(w.what, "delete") || funcPkg(w.fn) != c.Engine {
+			continue
+		}
+		// the un-marking of a file that failed to load (VM.loaded) is another map; stateWrites is per field
+		n++
+		key := fmt.Sprintf("%s/delete#%d", fname(w.fn), n)
+		cleared := false
+		eachInstr(w.fn, func(in ssa.Instruction) {
+			st, ok := in.(*ssa.Store)
+			if !ok {
+				return
+			}
+			fa, ok := st.Addr.(*ssa.FieldAddr)
+			if !ok || fieldName(fa) != "clauses" || !isEngNamed(deref(fa.X.Type()), "userDefined") {
+				return
+			}
+			empty := isNilConst(st.Val)
+			if sl, ok := st.Val.(*ssa.Slice); ok {
+				if k, ok := constInt(sl.High); ok && k == 0 {
+					empty = true
+				}
+			}
+			if !empty {
+				return
+			}
+			sb, db := st.Block(), w.in.Block()
+			if (sb == db && instrIndex(st) < instrIndex(w.in)) || (sb != db && sb.Dominates(db)) {
+				cleared = true
+			}
+		})
+		if cleared {
+			r.ok(rule, key, c.at(w.in), desc, "the clauses of the record are set to nil before the delete", true)
+		} else {
+			r.bad(rule, key, c.at(w.in), desc, "the record keeps its clauses: an open retract/1 that still holds it goes on removing clauses of the abolished procedure and succeeds for each")
+		}
+	}
+	if n == 0 {
+		r.info(rule, "scan/deletes", "-", desc, "no delete from VM.procedures found")
+	}
+}
